@@ -161,6 +161,18 @@ claim('C17',
       'TLA+ decision model (Render.tla) + TLC + record validation of projected responses (Render_Trace.tla); parse-back is projection-decided',
       'DESIGN.md 3/C17')
 
+claim('C18',
+      'Meta.tla is the page model of the MetaApplication: per host configuration (resources = name class x value kind, middlewares '
+      'incl. a signed-cookie middleware with a key and one whose repr raises, ordinary and introspection-hostile route kinds, mount '
+      'depth 0-2, HTML / JSON view) how each resource must be shown (redacted iff its name contains \'secret\', visible otherwise), '
+      'that nothing leaks and that a broken section is reported inline; TLC checks the model over 153k configurations and enumerates '
+      'them. Each sampled configuration is built as a real host Application, the page is fetched and projected (every unique marker '
+      'searched in the raw / HTML-unescaped / backslash-unescaped / JSON-decoded body; per resource: redacted / visible / absent), and '
+      'TLC judges every record (Meta_Trace).',
+      'Trusted: TLC; the marker search (projection); case-sensitive match of \'secret\' as stated; numeric secrets searched by their digits.',
+      'TLA+ page model (Meta.tla) + TLC + record validation of projected real pages (Meta_Trace.tla); the leak scan is projection-decided',
+      'DESIGN.md 3/C18')
+
 claim('C19',
       'TLC model-checks Reservoir.tla (algorithm shaped like Reservoir.add/resize refines the property relation; '
       'Bounded/OnlyAdded/NeverRaises/ExactCount in every reachable state, all replacement indices, all resize points) '
